@@ -222,7 +222,14 @@ def judge_iter(case):
 SPECIAL = {"ctor": judge_ctor, "iter": judge_iter}
 
 def all_cases(tier):
-    return cat.cases(tier, "forward") + ctor_cases() + iter_cases()
+    base = cat.cases(tier, "forward")
+    extra = []
+    if tier == "thorough":       # value-scale variants of every case whose operands are 'generic'
+        for c in cat.cases("quick", "forward"):
+            if not c.get("pats") and c["op"] not in ("pow", "rpow", "exp"):
+                for m in ("tiny", "large", "offset"):
+                    extra.append(dict(c, vmod=m))
+    return base + extra + ctor_cases() + iter_cases()
 
 def replay(case):
     with harness.quiet():
